@@ -1371,6 +1371,10 @@ def _weighted_quantile(sorted_values, quantiles, weights):
   index_values = np.arange(len(sorted_values))
   quantiles_idx = np.interp(x=quantiles, xp=weighted_quantiles, fp=index_values)
   quantiles_idx = np.rint(quantiles_idx).astype(int)
+  # Zero-weight values at either end (e.g. the clipping sentinels) form plateaus
+  # of the interpolation grid; the extreme quantiles must still be the extremes.
+  quantiles_idx[0] = 0
+  quantiles_idx[-1] = len(sorted_values) - 1
 
   # Replace repeated quantile values with neighbouring values.
   unique_idx, first_use = np.unique(quantiles_idx, return_index=True)
